@@ -645,11 +645,12 @@ class Nest(MultiCrossBlockRepeat):
                 pass
             else:
                 raise ValueError("Outer and inner blocks cannot have different alignment.")
-        design = outer_block.design + []
-        for f in inner_block.design:
+        # Use the blocks as written by the user: weights are desugared again when this block is created
+        design = outer_block.orig_design + []
+        for f in inner_block.orig_design:
             if f not in design:
                 design.append(f)
-        crossings = outer_block.crossings + inner_block.crossings
+        crossings = outer_block.orig_crossings + inner_block.orig_crossings
         inner_len = inner_block.trials_per_sample() - inner_block.common_preamble_size()
         outer_sustain_counts = [inner_len * sc for sc in outer_block.crossing_sustain_counts]
         crossing_sustain_counts = outer_sustain_counts + inner_block.crossing_sustain_counts
